@@ -9,6 +9,11 @@ use futures::{SinkExt, StreamExt, channel::mpsc};
 #[derive(Debug)]
 struct BoundQueueInner<T> {
     tx: mpsc::Sender<T>,
+    /// The one sender used by [`BoundQueue::try_send`].
+    ///
+    /// Every clone of a [`mpsc::Sender`] owns a guaranteed slot of the channel, so a `try_send`
+    /// on a fresh clone never reports a full queue: the bound only holds for a sender that is kept.
+    try_tx: Mutex<mpsc::Sender<T>>,
     rx: Mutex<mpsc::Receiver<T>>,
 }
 
@@ -25,12 +30,21 @@ impl<T> BoundQueue<T> {
     #[inline]
     pub fn new(size: usize) -> Self {
         let (tx, rx) = mpsc::channel(size);
-        Self(Arc::new(BoundQueueInner { tx, rx: rx.into() }))
+        let try_tx = Mutex::new(tx.clone());
+        Self(Arc::new(BoundQueueInner {
+            tx,
+            try_tx,
+            rx: rx.into(),
+        }))
     }
 
+    /// Enqueue `item` without waiting.
+    ///
+    /// Fails with a [full](mpsc::TrySendError::is_full) error, giving the item back, when
+    /// `size + 1` items sent this way are waiting to be received.
     #[inline]
     pub fn try_send(&self, item: T) -> Result<(), mpsc::TrySendError<T>> {
-        self.0.tx.clone().try_send(item)
+        self.0.try_tx.lock().unwrap().try_send(item)
     }
 
     #[inline]
